@@ -9,4 +9,4 @@ for id in $ids; do
   VERIF_NPROC=${VERIF_NPROC:-16} tools/seeded_eval.sh $HERE/seeded/$id $id $tgt 2>&1 | cut -c1-260 >> $out.tmp
 done
 mv $out.tmp $out
-echo "caught by target check: $(grep -c ' rc=1 ' $out) / $(grep -c ' rc=[0-9]' $out)" >> $out
+echo "caught by target check: $(grep -v demo: $out | grep -c ' rc=1 ') / $(grep -v demo: $out | grep -c ' rc=[0-9]')" >> $out
